@@ -974,3 +974,66 @@ func iterationCanSkip(fi *fnInfo, S *ssa.BasicBlock) bool {
 	}
 	return false
 }
+
+// checkNoPassWithoutProvider: a request whose issuer has no registered service provider never passes a validation
+// step. In every step closure of the chain (and every error-returning module function it reaches), a path that
+// established that the looked-up *ServiceProvider is nil must fail the step: `if sp == nil { return }` turns the
+// "unknown requester" case into an accepted request (answered with Success / persisted) instead of a refusal.
+func (cx *Ctx) checkNoPassWithoutProvider(r *Report, ch *Chain, tag string) {
+	w, fx := cx.W, cx.Fx
+	const spT = "<serviceprovider.ServiceProvider>"
+	n := 0
+	seen := map[*ssa.Function]bool{}
+	for _, s := range ch.Steps {
+		var fns []*ssa.Function
+		roleOf := map[*ssa.Function]string{}
+		for _, role := range []string{"logic", "value", "values"} {
+			for _, f := range s.Role[role] {
+				fns = append(fns, f)
+				roleOf[f] = role
+			}
+		}
+		for _, f := range w.sortedFuncs(s.Scope) {
+			if _, isRole := roleOf[f]; isRole {
+				continue
+			}
+			res := f.Signature.Results()
+			if res.Len() > 0 && isErrorTypeT(res.At(res.Len()-1).Type()) {
+				fns = append(fns, f)
+				roleOf[f] = "helper"
+			}
+		}
+		for _, f := range fns {
+			if seen[f] || f.Blocks == nil {
+				continue
+			}
+			seen[f] = true
+			aps, ok := fx.atomPaths(f, 4096)
+			if !ok {
+				continue
+			}
+			n++
+			bad := ""
+			for i := range aps {
+				p := &aps[i]
+				if p.Ret == nil {
+					continue
+				}
+				if k := len(p.Ret.Results); k > 0 && isErrorTypeT(p.Ret.Results[k-1].Type()) {
+					if _, nonNil := fx.errNilness(p, fx.retVal(p, k-1)); nonNil {
+						continue
+					}
+				}
+				for _, a := range p.Atoms {
+					if a.Op == "NIL" && !a.Neg && a.TA == spT {
+						bad = "a path that found the service provider absent (" + a.String() + ") lets the request pass at " + w.InstrPos(p.Ret)
+					}
+				}
+			}
+			r.Check(bad == "", "R-GUARD", tag+":no-pass-without-provider@"+w.FuncKey(f), w.FnPos(f), "no passing path under a nil service provider", bad+": a request from an issuer without a registered provider is accepted")
+		}
+	}
+	if n == 0 {
+		r.Fail("R-GUARD", tag+":no-pass-without-provider", w.FnPos(ch.Fn), "no step closure of the chain could be analysed")
+	}
+}
